@@ -80,10 +80,13 @@ Theorem monoidal_models_exist : respects_types counting_model counting_F.
 Proof. exact counting_respects. Qed.
 Print Assumptions monoidal_models_exist.
 
-(* Full statement relating refusal to wiring in the ORIGINAL diagram (the boxes on
-   the way that are directly connected to the moving box): not asserted. *)
-Definition refusal_iff_wired_in_original_stmt : Prop := forall d i j left, wf d ->
-  0 <= i < len (dboxes d) -> 0 <= j < len (dboxes d) ->
-  (interchange d i j left = Err InterchangerError <->
-   exists k, (Z.min i j <= k <= Z.max i j) /\ k <> i /\
-     exists w : nat, True (* box k consumes or produces a wire of box i: see harness oracle *)).
+(* Reading of "wired": the two theorems above characterise refusal through `disjoint_at`
+   at the step where the moving box meets the next box (its output wires and the other box's
+   input wires overlap, or a box without wires on that side sits strictly inside the other
+   one's span - a planar obstruction).  For boxes that both have wires at that level this
+   is exactly "the next box consumes a wire produced by the moving box"; the harness oracle
+   (struct_oracles.adjacent_conflict) decides it from wire identities independently of the
+   offsets arithmetic.  A characterisation purely in terms of the wire graph of the ORIGINAL
+   diagram (Core/Normal.v: linked) is not stated as a theorem: it is false for zero-width
+   boxes (an effect between two wires blocks a box that needs those wires adjacent although
+   they share no wire). *)
